@@ -334,8 +334,124 @@ Definition leaf_errs (k : str) (v : json) (kws : list (str * json)) (j : json) :
     end
   else [].
 
-(* errors of items given as a list of schemas: zip(enumerate(instance), items) *)
-(* Draft4Validator.iter_errors on a reference-free schema tree *)
+(* The behaviour of each keyword, given the validator [rec] for sub-schemas.
+   [ierr] below is the same text with [rec] := itself (Coq's termination check
+   wants the recursive calls written in place); Proofs/C07.v proves the two
+   equal by [reflexivity]. *)
+Section Keywords.
+  Variable rec : json -> json -> list verr.
+
+  Definition props_errs (props inst : list (str * json)) : list verr :=
+    (fix ploop (ps : list (str * json)) : list verr :=
+       match ps with
+       | [] => []
+       | (pk, sub) :: ps' =>
+           match assoc pk inst with
+           | Some x => map (push (PKey pk)) (rec sub x)
+           | None => []
+           end ++ ploop ps'
+       end) props.
+
+  Definition pprops_errs (pps inst : list (str * json)) : list verr :=
+    (fix pploop (ps : list (str * json)) : list verr :=
+       match ps with
+       | [] => []
+       | (pat, sub) :: ps' =>
+           (fix mloop (ms : list (str * json)) : list verr :=
+              match ms with
+              | [] => []
+              | (mk, x) :: ms' =>
+                  (if rx_search pat mk then map (push (PKey mk)) (rec sub x) else []) ++ mloop ms'
+              end) inst
+           ++ pploop ps'
+       end) pps.
+
+  Definition addl_errs (v : json) (extras : list (str * json)) : list verr :=
+    (fix eloop (ms : list (str * json)) : list verr :=
+       match ms with
+       | [] => []
+       | (mk, x) :: ms' => map (push (PKey mk)) (rec v x) ++ eloop ms'
+       end) extras.
+
+  Definition items_errs (v : json) (xs : list json) : list verr :=
+    (fix iloop (xs : list json) (i : N) : list verr :=
+       match xs with
+       | [] => []
+       | x :: xs' => map (push (PIdx i)) (rec v x) ++ iloop xs' (N.succ i)
+       end) xs 0%N.
+
+  Definition tuple_errs (subs xs : list json) : list verr :=
+    (fix zloop (subs : list json) (xs : list json) (i : N) : list verr :=
+       match subs, xs with
+       | sub :: subs', x :: xs' => map (push (PIdx i)) (rec sub x) ++ zloop subs' xs' (N.succ i)
+       | _, _ => []
+       end) subs xs 0%N.
+
+  Definition allof_errs (subs : list json) (j : json) : list verr :=
+    (fix aloop (subs : list json) : list verr :=
+       match subs with
+       | [] => []
+       | sub :: subs' => rec sub j ++ aloop subs'
+       end) subs.
+
+  Definition any_valid (subs : list json) (j : json) : bool :=
+    (fix anyl (subs : list json) : bool :=
+       match subs with
+       | [] => false
+       | sub :: subs' => if is_nil (rec sub j) then true else anyl subs'
+       end) subs.
+
+  Definition valid_flags (subs : list json) (j : json) : list bool :=
+    (fix vl (subs : list json) : list bool :=
+       match subs with
+       | [] => []
+       | sub :: subs' => is_nil (rec sub j) :: vl subs'
+       end) subs.
+
+  Definition kw_errs (k : str) (v : json) (kws : list (str * json)) (j : json) : list verr :=
+    if str_eqb k K_properties then
+      match v, j with
+      | JObj props, JObj inst => props_errs props inst
+      | _, _ => []
+      end
+    else if str_eqb k K_patternProperties then
+      match v, j with
+      | JObj pps, JObj inst => pprops_errs pps inst
+      | _, _ => []
+      end
+    else if str_eqb k K_additionalProperties then
+      match v, j with
+      | JObj _, JObj inst => (fun extras => addl_errs v extras) (find_additional kws inst)
+      | _, _ => leaf_errs k v kws j
+      end
+    else if str_eqb k K_items then
+      match v, j with
+      | JObj _, JArr xs => items_errs v xs
+      | JArr subs, JArr xs => tuple_errs subs xs
+      | _, _ => []
+      end
+    else if str_eqb k K_allOf then
+      match v with
+      | JArr subs => allof_errs subs j
+      | _ => []
+      end
+    else if str_eqb k K_anyOf then
+      match v with
+      | JArr subs => if any_valid subs j then [] else here K_anyOf
+      | _ => []
+      end
+    else if str_eqb k K_oneOf then
+      match v with
+      | JArr subs => if oneof_ok (valid_flags subs j) then [] else here K_oneOf
+      | _ => []
+      end
+    else if str_eqb k K_not then
+      (if is_nil (rec v j) then here K_not else [])
+    else leaf_errs k v kws j.
+End Keywords.
+
+(* Draft4Validator.iter_errors on a reference-free schema tree: the keywords
+   of the schema object in dict order, each contributing its errors *)
 Fixpoint ierr (s : json) (j : json) {struct s} : list verr :=
   match s with
   | JObj kws =>
@@ -344,92 +460,87 @@ Fixpoint ierr (s : json) (j : json) {struct s} : list verr :=
          | [] => []
          | (k, v) :: l' =>
              (if str_eqb k K_properties then
-                match v, j with
-                | JObj props, JObj inst =>
-                    (fix ploop (ps : list (str * json)) : list verr :=
-                       match ps with
-                       | [] => []
-                       | (pk, sub) :: ps' =>
-                           match assoc pk inst with
-                           | Some x => map (push (PKey pk)) (ierr sub x)
-                           | None => []
-                           end ++ ploop ps'
-                       end) props
-                | _, _ => []
-                end
-              else if str_eqb k K_patternProperties then
-                match v, j with
-                | JObj pps, JObj inst =>
-                    (fix pploop (ps : list (str * json)) : list verr :=
-                       match ps with
-                       | [] => []
-                       | (pat, sub) :: ps' =>
-                           flat_map (fun kx => if rx_search pat (fst kx)
-                                               then map (push (PKey (fst kx))) (ierr sub (snd kx))
-                                               else []) inst
-                           ++ pploop ps'
-                       end) pps
-                | _, _ => []
-                end
-              else if str_eqb k K_additionalProperties then
-                match v, j with
-                | JObj _, JObj inst =>
-                    flat_map (fun kx => map (push (PKey (fst kx))) (ierr v (snd kx)))
-                             (find_additional kws inst)
-                | _, _ => leaf_errs k v kws j
-                end
-              else if str_eqb k K_items then
-                match v, j with
-                | JObj _, JArr xs =>
-                    (fix iloop (xs : list json) (i : N) : list verr :=
-                       match xs with
-                       | [] => []
-                       | x :: xs' => map (push (PIdx i)) (ierr v x) ++ iloop xs' (N.succ i)
-                       end) xs 0%N
-                | JArr subs, JArr xs =>
-                    (fix zloop (subs : list json) (xs : list json) (i : N) : list verr :=
-                       match subs, xs with
-                       | sub :: subs', x :: xs' =>
-                           map (push (PIdx i)) (ierr sub x) ++ zloop subs' xs' (N.succ i)
-                       | _, _ => []
-                       end) subs xs 0%N
-                | _, _ => []
-                end
-              else if str_eqb k K_allOf then
-                match v with
-                | JArr subs =>
-                    (fix aloop (subs : list json) : list verr :=
-                       match subs with
-                       | [] => []
-                       | sub :: subs' => ierr sub j ++ aloop subs'
-                       end) subs
-                | _ => []
-                end
-              else if str_eqb k K_anyOf then
-                match v with
-                | JArr subs =>
-                    if (fix anyl (subs : list json) : bool :=
-                          match subs with
-                          | [] => false
-                          | sub :: subs' => if is_nil (ierr sub j) then true else anyl subs'
-                          end) subs
-                    then [] else here K_anyOf
-                | _ => []
-                end
-              else if str_eqb k K_oneOf then
-                match v with
-                | JArr subs =>
-                    if oneof_ok ((fix vl (subs : list json) : list bool :=
-                                    match subs with
-                                    | [] => []
-                                    | sub :: subs' => is_nil (ierr sub j) :: vl subs'
-                                    end) subs)
-                    then [] else here K_oneOf
-                | _ => []
-                end
-              else if str_eqb k K_not then
-                if is_nil (ierr v j) then here K_not else []
-              else leaf_errs k v kws j)
+      match v, j with
+      | JObj props, JObj inst => (fix ploop (ps : list (str * json)) : list verr :=
+       match ps with
+       | [] => []
+       | (pk, sub) :: ps' =>
+           match assoc pk inst with
+           | Some x => map (push (PKey pk)) (ierr sub x)
+           | None => []
+           end ++ ploop ps'
+       end) props
+      | _, _ => []
+      end
+    else if str_eqb k K_patternProperties then
+      match v, j with
+      | JObj pps, JObj inst => (fix pploop (ps : list (str * json)) : list verr :=
+       match ps with
+       | [] => []
+       | (pat, sub) :: ps' =>
+           (fix mloop (ms : list (str * json)) : list verr :=
+              match ms with
+              | [] => []
+              | (mk, x) :: ms' =>
+                  (if rx_search pat mk then map (push (PKey mk)) (ierr sub x) else []) ++ mloop ms'
+              end) inst
+           ++ pploop ps'
+       end) pps
+      | _, _ => []
+      end
+    else if str_eqb k K_additionalProperties then
+      match v, j with
+      | JObj _, JObj inst => (fun extras => (fix eloop (ms : list (str * json)) : list verr :=
+       match ms with
+       | [] => []
+       | (mk, x) :: ms' => map (push (PKey mk)) (ierr v x) ++ eloop ms'
+       end) extras) (find_additional kws inst)
+      | _, _ => leaf_errs k v kws j
+      end
+    else if str_eqb k K_items then
+      match v, j with
+      | JObj _, JArr xs => (fix iloop (xs : list json) (i : N) : list verr :=
+       match xs with
+       | [] => []
+       | x :: xs' => map (push (PIdx i)) (ierr v x) ++ iloop xs' (N.succ i)
+       end) xs 0%N
+      | JArr subs, JArr xs => (fix zloop (subs : list json) (xs : list json) (i : N) : list verr :=
+       match subs, xs with
+       | sub :: subs', x :: xs' => map (push (PIdx i)) (ierr sub x) ++ zloop subs' xs' (N.succ i)
+       | _, _ => []
+       end) subs xs 0%N
+      | _, _ => []
+      end
+    else if str_eqb k K_allOf then
+      match v with
+      | JArr subs => (fix aloop (subs : list json) : list verr :=
+       match subs with
+       | [] => []
+       | sub :: subs' => ierr sub j ++ aloop subs'
+       end) subs
+      | _ => []
+      end
+    else if str_eqb k K_anyOf then
+      match v with
+      | JArr subs => if (fix anyl (subs : list json) : bool :=
+       match subs with
+       | [] => false
+       | sub :: subs' => if is_nil (ierr sub j) then true else anyl subs'
+       end) subs then [] else here K_anyOf
+      | _ => []
+      end
+    else if str_eqb k K_oneOf then
+      match v with
+      | JArr subs => if oneof_ok ((fix vl (subs : list json) : list bool :=
+       match subs with
+       | [] => []
+       | sub :: subs' => is_nil (ierr sub j) :: vl subs'
+       end) subs) then [] else here K_oneOf
+      | _ => []
+      end
+    else if str_eqb k K_not then
+      (if is_nil (ierr v j) then here K_not else [])
+    else leaf_errs k v kws j)
              ++ loop l'
          end) kws
   | _ => []
@@ -463,6 +574,60 @@ Definition leaf_wf (k : str) (v : json) (kws : list (str * json)) : bool :=
   else if str_eqb k K_required then match v with JArr l => forallb is_jstr l | _ => false end
   else negb (mem_str k unsupported_keywords).
 
+Section KeywordsWf.
+  Variable rec : json -> bool.
+  Definition all_wf (subs : list json) : bool :=
+    (fix sloop (subs : list json) : bool :=
+       match subs with
+       | [] => true
+       | sub :: subs' => rec sub && sloop subs'
+       end) subs.
+  Definition props_wf (props : list (str * json)) : bool :=
+    (fix ploop (ps : list (str * json)) : bool :=
+       match ps with
+       | [] => true
+       | (_, sub) :: ps' => rec sub && ploop ps'
+       end) props.
+  Definition pprops_wf (pps : list (str * json)) : bool :=
+    (fix ploop (ps : list (str * json)) : bool :=
+       match ps with
+       | [] => true
+       | (pat, sub) :: ps' => rx_known pat && rec sub && ploop ps'
+       end) pps.
+  Definition kw_wf (k : str) (v : json) (kws : list (str * json)) : bool :=
+    if str_eqb k K_properties then
+      match v with
+      | JObj props => props_wf props
+      | _ => false
+      end
+    else if str_eqb k K_patternProperties then
+      match v with
+      | JObj pps => pprops_wf pps
+      | _ => false
+      end
+    else if str_eqb k K_additionalProperties then
+      match v with
+      | JObj _ => rec v
+      | JBool _ => true
+      | _ => false
+      end
+    else if str_eqb k K_items then
+      match v with
+      | JObj _ => rec v
+      | JArr subs => all_wf subs
+      | _ => false
+      end
+    else if str_eqb k K_allOf || str_eqb k K_anyOf || str_eqb k K_oneOf then
+      match v with
+      | JArr subs => all_wf subs
+      | _ => false
+      end
+    else if str_eqb k K_not then rec v
+    else leaf_wf k v kws.
+End KeywordsWf.
+
+(* a schema tree whose keyword values have the shapes the model gives a meaning
+   to (same text as [kw_wf] with [rec] := itself) *)
 Fixpoint wf_schema (s : json) : bool :=
   match s with
   | JObj kws =>
@@ -471,54 +636,50 @@ Fixpoint wf_schema (s : json) : bool :=
          | [] => true
          | (k, v) :: l' =>
              (if str_eqb k K_properties then
-                match v with
-                | JObj props =>
-                    (fix ploop (ps : list (str * json)) : bool :=
-                       match ps with
-                       | [] => true
-                       | (_, sub) :: ps' => wf_schema sub && ploop ps'
-                       end) props
-                | _ => false
-                end
-              else if str_eqb k K_patternProperties then
-                match v with
-                | JObj pps =>
-                    (fix ploop (ps : list (str * json)) : bool :=
-                       match ps with
-                       | [] => true
-                       | (pat, sub) :: ps' => rx_known pat && wf_schema sub && ploop ps'
-                       end) pps
-                | _ => false
-                end
-              else if str_eqb k K_additionalProperties then
-                match v with
-                | JObj _ => wf_schema v
-                | JBool _ => true
-                | _ => false
-                end
-              else if str_eqb k K_items then
-                match v with
-                | JObj _ => wf_schema v
-                | JArr subs =>
-                    (fix sloop (subs : list json) : bool :=
-                       match subs with
-                       | [] => true
-                       | sub :: subs' => wf_schema sub && sloop subs'
-                       end) subs
-                | _ => false
-                end
-              else if str_eqb k K_allOf || str_eqb k K_anyOf || str_eqb k K_oneOf then
-                match v with
-                | JArr subs =>
-                    (fix sloop (subs : list json) : bool :=
-                       match subs with
-                       | [] => true
-                       | sub :: subs' => wf_schema sub && sloop subs'
-                       end) subs
-                | _ => false
-                end
-              else if str_eqb k K_not then wf_schema v
-              else leaf_wf k v kws)
+      match v with
+      | JObj props => (fix ploop (ps : list (str * json)) : bool :=
+       match ps with
+       | [] => true
+       | (_, sub) :: ps' => wf_schema sub && ploop ps'
+       end) props
+      | _ => false
+      end
+    else if str_eqb k K_patternProperties then
+      match v with
+      | JObj pps => (fix ploop (ps : list (str * json)) : bool :=
+       match ps with
+       | [] => true
+       | (pat, sub) :: ps' => rx_known pat && wf_schema sub && ploop ps'
+       end) pps
+      | _ => false
+      end
+    else if str_eqb k K_additionalProperties then
+      match v with
+      | JObj _ => wf_schema v
+      | JBool _ => true
+      | _ => false
+      end
+    else if str_eqb k K_items then
+      match v with
+      | JObj _ => wf_schema v
+      | JArr subs => (fix sloop (subs : list json) : bool :=
+       match subs with
+       | [] => true
+       | sub :: subs' => wf_schema sub && sloop subs'
+       end) subs
+      | _ => false
+      end
+    else if str_eqb k K_allOf || str_eqb k K_anyOf || str_eqb k K_oneOf then
+      match v with
+      | JArr subs => (fix sloop (subs : list json) : bool :=
+       match subs with
+       | [] => true
+       | sub :: subs' => wf_schema sub && sloop subs'
+       end) subs
+      | _ => false
+      end
+    else if str_eqb k K_not then wf_schema v
+    else leaf_wf k v kws)
              && loop l'
          end) kws
   | _ => false
